@@ -1353,4 +1353,113 @@ theorem optB_no_panic (s : Text) : OptB.parse s ≠ .panic := by
   repeat' split
   all_goals first | (rename_i hh; exact absurd hh (pid_no_panic _)) | simp
 
+/-! ### 50K and 50H: `[/34x]` account line + `4*35x` -/
+
+/-- `/` followed by 1..34 x-characters -/
+def Doc.AccountLine (l : Text) : Prop := ∃ a, l = '/' :: a ∧ Doc.XText 34 a
+
+theorem acctStrict_iff (l : Text) : (acctStrict l).isOk = true ↔ Doc.AccountLine l := by
+  unfold acctStrict Doc.AccountLine
+  constructor
+  · intro h
+    split at h
+    · rename_i acc
+      split at h; · cases h
+      rename_i hc
+      split at h
+      · rename_i hx
+        simp only [Bool.or_eq_true, List.isEmpty_iff, decide_eq_true_eq, not_or, Nat.not_lt] at hc
+        exact ⟨acc, rfl, xtext_of_checks 34 acc hc.2 hc.1 hx⟩
+      · cases h
+    · cases h
+  · rintro ⟨a, rfl, hx⟩
+    obtain ⟨h1, h2, h3⟩ := checks_of_xtext 34 a hx
+    simp [h2, h3, Nat.not_lt.mpr h1, Res.isOk]
+
+theorem accountLine_no_nl (l : Text) (h : Doc.AccountLine l) : ∀ c ∈ l, c ≠ '\n' := by
+  obtain ⟨a, rfl, hx⟩ := h
+  intro c hc
+  rcases List.mem_cons.mp hc with rfl | hc
+  · decide
+  · exact swiftX_not_nl c (hx.2.2 c hc)
+
+/-- 50K: name-and-address lines, optionally preceded by an account line; a first line that starts with a slash must be
+an account line -/
+def Doc.F50K (s : Text) : Prop :=
+  (∃ ls, s = joinNl ls ∧ Doc.NameLines ls ∧ (ls.head?.bind List.head?) ≠ some '/') ∨
+  (∃ l ls, s = joinNl (l :: ls) ∧ Doc.AccountLine l ∧ Doc.NameLines ls)
+
+theorem accepts_iff_50K (s : Text) : (F50K.parse s).isOk = true ↔ Doc.F50K s := by
+  constructor
+  · intro h
+    unfold F50K.parse at h
+    have hj := joinNl_splitNl s
+    split at h
+    · cases h
+    · rename_i l0 rest hsp
+      rw [hsp] at hj
+      split at h
+      · rename_i hsl
+        split at h
+        · rename_i acc ha
+          split at h
+          · rename_i ls hl
+            refine Or.inr ⟨l0, rest, hj.symm, (acctStrict_iff l0).mp (by rw [ha]; rfl), (nameAddr_accepts_iff rest).mp (by rw [hl]; rfl)⟩
+          · cases h
+          · cases h
+        · cases h
+        · cases h
+      · rename_i hsl
+        split at h
+        · rename_i ls hl
+          refine Or.inl ⟨l0 :: rest, hj.symm, (nameAddr_accepts_iff _).mp (by rw [hl]; rfl), ?_⟩
+          simp only [List.head?_cons, Option.bind_some]
+          intro hh
+          apply hsl
+          simp [hh]
+        · cases h
+        · cases h
+  · intro h
+    rcases h with ⟨ls, rfl, hn, hh⟩ | ⟨l, ls, rfl, hl, hn⟩
+    · have hne : ls ≠ [] := by intro he; subst he; have := hn.1; simp at this
+      have hsp := splitNl_joinNl ls hne (nameLines_no_nl ls hn)
+      cases ls with
+      | nil => exact absurd rfl hne
+      | cons l0 rest =>
+        simp only [List.head?_cons, Option.bind_some] at hh
+        have hok := (nameAddr_accepts_iff (l0 :: rest)).mpr hn
+        have hnot : (l0.head? == some '/') = false := by
+          cases hb : (l0.head? == some '/') with
+          | false => rfl
+          | true => exact absurd (by simpa using hb) hh
+        unfold F50K.parse
+        rw [hsp]
+        simp only [hnot, Bool.false_eq_true, if_false]
+        cases hp : parseNameAndAddress (l0 :: rest) 0 with
+        | ok v => simp [Res.isOk]
+        | err => rw [hp] at hok; cases hok
+        | panic => rw [hp] at hok; cases hok
+    · have hlnl := accountLine_no_nl l hl
+      have hsp := splitNl_joinNl (l :: ls) (by simp) (by
+        intro x hx
+        rcases List.mem_cons.mp hx with rfl | hx
+        · exact hlnl
+        · exact nameLines_no_nl ls hn x hx)
+      have hacc := (acctStrict_iff l).mpr hl
+      have hok := (nameAddr_accepts_iff ls).mpr hn
+      have hhead : (l.head? == some '/') = true := by
+        obtain ⟨a, rfl, _⟩ := hl; rfl
+      unfold F50K.parse
+      rw [hsp]
+      simp only [hhead, if_true]
+      cases ha : acctStrict l with
+      | ok acc =>
+        simp only
+        cases hpn : parseNameAndAddress ls 0 with
+        | ok v => simp [Res.isOk]
+        | err => rw [hpn] at hok; cases hok
+        | panic => rw [hpn] at hok; cases hok
+      | err => rw [ha] at hacc; cases hacc
+      | panic => rw [ha] at hacc; cases hacc
+
 end SwiftMT.Props.C05
